@@ -228,6 +228,10 @@ typedef struct pv_world {
     uint8_t rand_script[64]; int rand_script_len;
     pv_rng rand_rng;
     uint64_t time_value;
+    /* a clock is allowed to move: when time_script_n > 0 the k-th reading made during one library call returns time_script[k]
+     * (the last entry for further readings); every value handed out during the call is kept in time_seen */
+    uint64_t time_script[4]; int time_script_n;
+    uint64_t time_seen[8]; int time_reads;
     int kdf_mode;                   /* 0 mix of all arguments, 1 scripted mask */
     uint8_t kdf_mask[32];
     int memzero_mode;               /* 0 wipe, 1 log only (positive control) */
